@@ -92,13 +92,20 @@ func (v *objectValidator) feed(jsonLexeme lexeme.LexEvent) ([]validator, bool) {
 
 func (v *objectValidator) feedObjectKeyEnd(jsonLexeme lexeme.LexEvent) {
 	v.lastFoundKeyLex = jsonLexeme
-	if _, ok := v.node_.(*schema.ObjectNode); !ok { // mixed node
+	objectNode, ok := v.node_.(*schema.ObjectNode)
+	if !ok { // mixed node
 		panic(lexeme.NewLexEventError(
 			v.lastFoundKeyLex,
 			errors.Format(errors.ErrSchemaDoesNotSupportKey, v.lastFoundKeyLex.Value().Unquote().String())),
 		)
 	}
-	delete(v.requiredKeys, v.lastFoundKeyLex.Value().Unquote().String())
+	key := v.lastFoundKeyLex.Value().Unquote().String()
+	if _, ok := objectNode.Child(key, false); ok {
+		// Only a property with this very key is found by it: a document key spelled
+		// like the name of a key shortcut (`"@id"` against `@id: 1`) does not stand
+		// for the shortcut, which is found when a key of its type arrives.
+		delete(v.requiredKeys, key)
+	}
 }
 
 func (v *objectValidator) feedObjectValueBegin() ([]validator, bool) {
